@@ -226,6 +226,36 @@ def run_same_object_twice(case, algo):
     return outs
 
 
+def run_inplace_costs(case, other_costs, algo, policy="all"):
+    """Histories on ONE input object: solve, change `inp.costs` IN PLACE (as the package's own tests do), solve,
+    change back, solve.  Returns the three canonical results.  State keyed by the input object (a memoised table,
+    a cached cost lookup) shows here and nowhere else."""
+    import contextlib
+    import io
+
+    from superrec2.utils.dynamic_programming import RetentionPolicy
+
+    from ..sr import PLAIN, algorithms, build_input, canon_solution, costs_of, enc_cost
+
+    inp = build_input(case, force_plain=(algo in PLAIN))
+    original = dict(inp.costs)
+    changed = costs_of({"costs": other_costs})
+    outs = []
+    for costs in (original, changed, original):
+        inp.costs.clear()
+        inp.costs.update(costs)
+        try:
+            with contextlib.redirect_stderr(io.StringIO()):
+                rs = list(algorithms()[algo](inp, getattr(RetentionPolicy, policy.upper())))
+            cs = sorted({enc_cost(o.cost()) for o in rs}, key=str)
+            sols = sorted((canon_solution(o) for o in rs), key=solution_key)
+        except Exception as e:  # noqa
+            outs.append({"err": type(e).__name__})
+            continue
+        outs.append({"cost": cs[0] if len(cs) == 1 else (None if not cs else cs), "sols": sols})
+    return outs
+
+
 def scaled(case, k):
     v = copy.deepcopy(case)
     c = solvers.full_costs(case)
@@ -311,6 +341,40 @@ def check_case(ctx, res, case, model_out):
             return
         if not same(second, None, "the computation is run again on the same input object"):
             return
+        # the costs of the SAME input object changed in place, and changed back (histories)
+        if rng.random() < 0.5:
+            plain = MODE[algo] == "plain"
+            other = gen.rand_costs(rng, plain=plain)
+            if rng.random() < 0.3:
+                other["hgt"] = "inf"
+            if rng.random() < 0.3:
+                other["floss"] = 0
+                if not gen.coherent(other, plain):
+                    other["spe"] = 0
+                    other["sloss"] = 0
+            v2 = copy.deepcopy(case)
+            v2["costs"] = other
+            if gen.coherent(solvers.full_costs(v2), plain):
+                for pol in ("all", "any"):
+                    r1, r2, r3 = run_inplace_costs(case, solvers.full_costs(v2), algo, pol)
+                    fresh2 = solvers.strip(run_algo(v2, algo, pol))
+                    fresh1 = base if pol == "all" else solvers.strip(run_algo(case, algo, pol))
+                    for got, want, what in ((r1, fresh1, "first call on the object"),
+                                            (r2, fresh2, "costs of the input object changed in place"),
+                                            (r3, fresh1, "costs of the input object changed back in place")):
+                        if "err" in got or "err" in want:
+                            if ("err" in got) != ("err" in want):
+                                res.violation(f"{algo} ({pol}): {what}: {got.get('err')} vs a fresh input {want.get('err')}",
+                                              {**info, "variant": what, "other_costs": other})
+                                return
+                            continue
+                        if got["cost"] != want["cost"] or (pol == "all" and keys(got["sols"]) != keys(want["sols"])):
+                            res.violation(
+                                f"{algo} ({pol}): after '{what}' the result (cost {got['cost']}, {len(got['sols'])} "
+                                f"solutions) differs from a fresh input with the same costs (cost {want['cost']}, "
+                                f"{len(want['sols'])} solutions)", {**info, "variant": what, "other_costs": other})
+                            return
+                res.dist["in-place cost change on one input object"] += 1
         # outgroup
         v, _, what = variant_outgroup(case, rng)
         out = solvers.strip(run_algo(v, algo, "all"))
